@@ -25,7 +25,7 @@ var c18Ops = map[byte][]string{
 }
 
 func c18(c *core.Check) {
-	c.Explain = "Thin: structural necessary conditions of SVG path interpretation and reference handling, decided on the syntax tree and SSA form: (R1) in pathParser.addSeg every command letter has a case, each case checks the SVG argument count of its command (M2 L2 H1 V1 C6 S4 Q4 T2 A7, Z none), every lower-case letter switches to relative coordinates before sharing its upper-case sibling's code, each command emits the path operations SVG assigns to it, Z moves the current point back to the sub-path start, and the smooth commands reflect the control point only after a command of their own family; (R2) <use> (by id and by URL) and href inheritance between definitions are cycle-guarded. The geometry itself (arc conversion, reflections, quadratic elevation, viewBox arithmetic, basic shapes) is not decided; fixed-position reads of the SVG attribute parsers are decided under C07. Also decided by symbolic folding: (R4) reflection, quadratic elevation and the ellipse parameterisation in closed form; (R5) the arc centre and radii correction of SVG F.6.5/F.6.6; (R6) rect and ellipse outlines against a recording canvas."
+	c.Explain = "Thin: structural necessary conditions of SVG path interpretation and reference handling, decided on the syntax tree and SSA form: (R1) in pathParser.addSeg every command letter has a case, each case checks the SVG argument count of its command (M2 L2 H1 V1 C6 S4 Q4 T2 A7, Z none), every lower-case letter switches to relative coordinates before sharing its upper-case sibling's code, each command emits the path operations SVG assigns to it, Z moves the current point back to the sub-path start, and the smooth commands reflect the control point only after a command of their own family; (R2) <use> (by id and by URL) and href inheritance between definitions are cycle-guarded. The geometry itself (arc conversion, reflections, quadratic elevation, viewBox arithmetic, basic shapes) is not decided; fixed-position reads of the SVG attribute parsers are decided under C07. Also decided by symbolic folding: (R4) reflection, quadratic elevation and the ellipse parameterisation in closed form; (R5) the arc centre and radii correction of SVG F.6.5/F.6.6; (R6) rect and ellipse outlines against a recording canvas.  (R7) helpers handed one argument group read that group only; (R8) viewBox / preserveAspectRatio folded for none/meet/slice and the nine alignments."
 	p := c.Prog
 	r1 := c.Rule("R1", "pathParser.addSeg: argument count, relative/absolute pairing and emitted operations per path command are those of SVG 1.1 §8.3; Z returns the current point to the sub-path start; smooth commands reflect the previous control point only after a command of their own family", 40)
 	fn := p.Lookup("svg.(*pathParser).addSeg")
